@@ -1,6 +1,6 @@
 (* C04 - Tricks are won, led and counted according to the laws of play.
    Only statements, each closed by [exact]; proofs are in the files imported below. *)
-From BE Require Import Model.Play Spec.PlayLaws Proofs.Play.
+From BE Require Import Model.Play Spec.PlayLaws Gen.PlayFns Proofs.Play Proofs.PlayGen Proofs.PlayGenCor.
 Local Open Scope nat_scope.
 
 (* opening lead by declarer's left-hand opponent, declarer's partner is dummy *)
@@ -102,6 +102,93 @@ Theorem C04_not_done_before_52 :
   forall k s0 cards, init_play k = Some s0 -> length cards < 52 -> phase_done (runp s0 cards) = false.
 Proof. exact not_done_before_52. Qed.
 Print Assumptions C04_not_done_before_52.
+
+(* play_card REGENERATED from the text of playing_phase.py on every run (harness/gen_play.py): the hand model, or the ValueError of PlayingHistory.record *)
+Theorem C04_generated_play_card :
+  forall s c,
+  g_play_card s c =
+  if play_card_raises s c
+  then (mkP (trump s) (declarer s) (dummy s) (leader s) (pactive s) (trick s ++ [c]) (trick_num s) (rtricks s)
+            (c :: used s) (taken_ns s) (taken_ew s), PRaises)
+  else (play_card s c, POk).
+Proof. exact g_play_card_spec. Qed.
+Print Assumptions C04_generated_play_card.
+
+(* under the invariant trick_num = 1 + recorded tricks *)
+Theorem C04_generated_play_card_is_hand_model :
+  forall s c, hist_ok s -> g_play_card s c = (play_card s c, POk).
+Proof. exact g_play_card_eq. Qed.
+Print Assumptions C04_generated_play_card_is_hand_model.
+
+Theorem C04_generated_init_is_hand_model :
+  forall k, g_init_play k = init_play k.
+Proof. exact g_init_play_eq. Qed.
+Print Assumptions C04_generated_init_is_hand_model.
+
+Theorem C04_generated_calc_highest_is_hand_model :
+  forall st cards, g_calc_highest st cards = zidx (calc_highest st cards).
+Proof. exact g_calc_highest_eq. Qed.
+Print Assumptions C04_generated_calc_highest_is_hand_model.
+
+Theorem C04_generated_next_leader_is_hand_model :
+  forall s,
+  g_set_next_leader s =
+  if negb (length (trick s) =? 4) then (s, PRaises)
+  else (mkP (trump s) (declarer s) (dummy s) (rot (leader s) (winner_idx (trump s) (trick s))) (pactive s) (trick s)
+            (trick_num s) (rtricks s) (used s) (taken_ns s) (taken_ew s), POk).
+Proof. exact g_set_next_leader_eq. Qed.
+Print Assumptions C04_generated_next_leader_is_hand_model.
+
+(* every run of the regenerated functions from __init__ equals the run of the hand model *)
+Theorem C04_generated_run_is_hand_model :
+  forall k s0 cards, g_init_play k = Some s0 -> g_runp s0 cards = runp s0 cards.
+Proof. exact g_runp_eq. Qed.
+Print Assumptions C04_generated_run_is_hand_model.
+
+(* the record error is unreachable *)
+Theorem C04_generated_never_raises :
+  forall k s0 cards c, g_init_play k = Some s0 ->
+  snd (g_play_card (g_runp s0 cards) c) = POk.
+Proof. exact g_play_never_raises. Qed.
+Print Assumptions C04_generated_never_raises.
+
+(* the property, for the regenerated functions *)
+Theorem C04_opening_generated :
+  forall k s0, g_init_play k = Some s0 ->
+  exists l st d, final_bid k = Some (l, st) /\ cdeclarer k = Some d /\
+  trump s0 = st /\ declarer s0 = d /\ dummy s0 = partner d /\ leader s0 = next d /\ pactive s0 = next d /\
+  trick s0 = [] /\ trick_num s0 = 1 /\ tricks s0 = [] /\ taken_ns s0 = 0 /\ taken_ew s0 = 0.
+Proof. exact g_opening. Qed.
+Print Assumptions C04_opening_generated.
+
+Theorem C04_turns_and_counters_generated :
+  forall k s0 cards, g_init_play k = Some s0 ->
+  let s := g_runp s0 cards in let n := length cards in
+  trick_num s = n / 4 + 1 /\ length (trick s) = n mod 4 /\ length (tricks s) = n / 4 /\
+  taken_ns s + taken_ew s = n / 4 /\ pactive s = rot (leader s) (length (trick s)) /\
+  trump s = trump s0 /\ declarer s = declarer s0 /\ dummy s = dummy s0.
+Proof. exact g_counters. Qed.
+Print Assumptions C04_turns_and_counters_generated.
+
+Theorem C04_history_is_the_cards_generated :
+  forall k s0 cards, g_init_play k = Some s0 ->
+  let s := g_runp s0 cards in
+  concat (map snd (tricks s)) ++ trick s = cards /\ Forall (fun t => length (snd t) = 4) (tricks s).
+Proof. exact g_history_is_the_cards. Qed.
+Print Assumptions C04_history_is_the_cards_generated.
+
+Theorem C04_next_leader_generated :
+  forall s,
+  length (trick s) = 4 ->
+  leader (fst (g_set_next_leader s)) = rot (leader s) (winner_idx (trump s) (trick s)) /\ snd (g_set_next_leader s) = POk.
+Proof. exact g_next_leader_is_law_winner. Qed.
+Print Assumptions C04_next_leader_generated.
+
+Theorem C04_done_generated :
+  forall k s0 cards, g_init_play k = Some s0 ->
+  g_phase_done (g_runp s0 cards) = (13 <? length cards / 4 + 1).
+Proof. exact g_phase_done_iff. Qed.
+Print Assumptions C04_done_generated.
 
 (* non-vacuity: a ruff and an over-ruff *)
 Theorem C04_example_overruff :
